@@ -102,6 +102,11 @@ def run(ctx):
                                                      big_first=cid[1] % 8 == 6,                    # a cell file of 70 001 events
                                                      units_pool=(['Channel', 'Channel', 'RFI', 'a.u.', 'MEF', 'au'] if cid[1] % 4 == 3      # raw-channel cells before converted ones
                                                                  else excelgen.UNITS))
+        if cid[1] % 4 in (1, 3):
+            # a stray blank at the end (start) of the whole channel-list cell, as typed by a user
+            for iid_ in itab.index:
+                c_ = itab.at[iid_, 'Fluorescence Channels'].strip()
+                itab.at[iid_, 'Fluorescence Channels'] = (c_ + ' ') if cid[1] % 4 == 1 else (' ' + c_)
         if cid[1] % 4 == 3 and len(stab) >= 1:
             # a raw-channel cell ('Channel': linear bins) is processed BEFORE a converted one (logicle bins) in the same table
             fl_of = lambda sid_: [c.strip() for c in itab.at[stab.at[sid_, 'Instrument ID'], 'Fluorescence Channels'].split(',')]
